@@ -80,6 +80,12 @@ BlockTab ==
    \* quoted parameters that hold the two characters the quoting escapes (a quotation mark and a backslash)
    infoQ |-> << D("INFO", <<>>, "", FALSE, "", ""), D("Title", <<"A \"quoted\" title \\ end">>, "", FALSE, "", ""), D("Version", <<"1.0-\"b\"">>, "", FALSE, "", "") >>,
    srvQ  |-> << D("SERVER", <<"@s_q">>, "", FALSE, "", ""), D("BaseUrl", <<"https://h/{a}?x=\"1\"&y=\\">>, "", FALSE, "", "") >>,
+   \* faults that only the checks behind the build find (validateCatalog): a request / a response that has Headers but no body.
+   \* Two of them in one document: the first in the order of the checks is reported, every time
+   vReq  |-> << D("POST", <<"pvr">>, "", FALSE, "", ""), D("Request", <<>>, "", FALSE, "", ""), D("Headers", <<>>, "", FALSE, "hdr", ""),
+                D("RESP", <<"any">>, "", FALSE, "", "200") >>,
+   vResp |-> << D("GET", <<"pvs">>, "", FALSE, "", ""), D("RESP", <<>>, "", FALSE, "", "200"), D("Headers", <<>>, "", FALSE, "hdr", ""),
+                D("RESP", <<"any">>, "", FALSE, "", "404") >>,
    \* paths with "." segments (stand-alone method, URL with a method, JSON-RPC)
    dotP  |-> << D("GET", <<"pdot">>, "", FALSE, "", ""), D("RESP", <<"any">>, "", FALSE, "", "200") >>,
    dotX  |-> << D("URL", <<"pdotx">>, "", FALSE, "", ""), D("POST", <<>>, "", FALSE, "", ""), D("RESP", <<"any">>, "", FALSE, "", "200") >>,
@@ -138,6 +144,7 @@ BlockTab ==
                 D("Headers", <<>>, "", FALSE, "hdr", ""), CloseTok >>,
    useM  |-> << D("URL", <<"pb">>, "", FALSE, "", ""), D("GET", <<>>, "", FALSE, "", ""), D("PASTE", <<"@m1">>, "", FALSE, "", ""),
                 D("POST", <<>>, "", FALSE, "", ""), D("PASTE", <<"@m1">>, "", FALSE, "", "") >>,                 \* needs mac; conflicts with getB? (pb vs PUT pb: no)
+   useMM |-> << D("DELETE", <<"pvs">>, "", FALSE, "", ""), D("PASTE", <<"@m1">>, "", FALSE, "", ""), D("PASTE", <<"@m1">>, "", FALSE, "", "") >>,   \* one macro (a response with Headers) twice in a row in one method: two responses (needs mac)
    tagrep|-> << D("PATCH", <<"pci">>, "", FALSE, "", ""), D("Tags", <<"@g1", "@g_2", "@g1", "@g1">>, "", FALSE, "", ""),
                 D("RESP", <<"any">>, "", FALSE, "", "200") >>,                                                  \* repeated tag names (needs tag1 tag2)
    reqT  |-> << D("POST", <<"pz">>, "create", FALSE, "", ""), D("Request", <<"@t1">>, "", FALSE, "", ""),
